@@ -7,6 +7,7 @@ def unit(name, pkg, harness, run, **kw):
     return d
 
 ROUTE_COMMON = ["route/common_test.go"]
+PROXY_COMMON = ["proxy/rig_test.go"]
 MAIN_COMMON = ["main/common_test.go"]
 SCHED = ["vsched", "vsync", "vatomic"]
 ROUTE_RW = [
@@ -69,6 +70,13 @@ PROPS = {
         units=[
         unit("c12-rules", "route", ROUTE_COMMON + ["route/sched_test.go", "route/c12_test.go"], "^TestVerifC12", engines=SCHED),
     ], layers={"quick": ["c12-rules"], "thorough": ["c12-rules"]}),
+    "C07": dict(level="exploration", engine="benum",
+        technique="bounded-exhaustive product of requests x route options through the real HTTPProxy + ReverseProxy to a recording upstream, reference rewrite on the escaped path",
+        level_text="The full product of method x path (incl. %2F, %20, //) x query x header set x body shape x strip x prepend x host option x target query (36k quick, 72k thorough) and an upstream response matrix (status x headers x body shape x method) plus the no-route matrix are executed on the real HTTPProxy.ServeHTTP and httputil.ReverseProxy against a real loopback upstream; every observable (method, request-target, Host, headers, body, status) is compared with the statement's rewrite rules.",
+        level_note="Requests enter through http.ReadRequest (the parser net/http's server uses) and a ResponseRecorder instead of a client socket; wire framing of the proxy's own server is net/http's and not re-checked. Hop-by-hop headers are not asserted either way.",
+        units=[
+        unit("c07", "proxy", PROXY_COMMON + ["proxy/c07_test.go"], "^TestVerifC07"),
+    ], layers={"quick": ["c07-request", "c07-response"], "thorough": ["c07-request", "c07-response"]}),
 }
 
 def layer_unit(pid, layer):
